@@ -184,7 +184,7 @@ fn c10_k1_eval_l7() {
     kani::cover!(n[0].is_op && n[1].is_op && n[0].end == 7 && n[1].end < 7, "nested operator followed by a sibling");
 }
 
-// @harness name=c10_k1_depth8 prop=C10,C02 tier=quick timeout=1500
+// @harness name=c10_k1_depth8 prop=C10,C02 tier=thorough timeout=3600
 // @encodes evaluate_boolean (operator stack of 8)
 // @bounds a chain of 8 nested operators (symbolic kinds) around one key leaf, plus a trailing sibling leaf; the maximum depth the parser accepts
 // @assumes none
